@@ -152,6 +152,7 @@ func runC02(p *core.Prog, r *core.Report) {
 	r.Floor("R02.1", 5)
 	r.Floor("R02.2", 1)
 	r.Floor("R02.3", 1)
+	aliasedInPlaceUpdates(c, "RA.1", "eddsa/signing", "common")
 }
 
 func isPtrTo32(t types.Type) bool {
